@@ -215,3 +215,21 @@ def ref_pl_eval(x, y, s):
             la = (s - x[i]) / (x[i + 1] - x[i])
             vals.append(y[i] + la * (y[i + 1] - y[i]))
     return vals
+
+
+def ref_cm_sorted(spos, sneg, threshold, score_class, equal_class, easy_pos=0, easy_neg=0):
+    """Counting by the decision rule on *sorted* Python lists with the bisect module (no NumPy): O(log n)."""
+    import bisect
+
+    def accepted(arr):
+        if score_class == "pos":
+            below = bisect.bisect_left(arr, threshold) if equal_class == "pos" else bisect.bisect_right(arr, threshold)
+            return len(arr) - below  # score >= t  /  score > t
+        upto = bisect.bisect_right(arr, threshold) if equal_class == "pos" else bisect.bisect_left(arr, threshold)
+        return upto  # score <= t  /  score < t
+
+    if threshold != threshold:  # NaN: no score satisfies any comparison
+        tp = fp = 0
+    else:
+        tp, fp = accepted(spos), accepted(sneg)
+    return [[tp + easy_pos, len(spos) - tp], [fp, len(sneg) - fp + easy_neg]]
